@@ -77,7 +77,8 @@ def replay_inproc(ctx, exe, behaviours, tag):
             done = 0
             for l in p.stdout.splitlines():
                 f = l.split()
-                if f and f[0].isdigit() and int(f[0]) == todo[done]:
+                if f and all(x.lstrip("-").isdigit() for x in f) and int(f[0]) == todo[done] \
+                        and len(f) == len(behaviours[todo[done]]["h"]) + 3:
                     res[todo[done]] = [int(x) for x in f[1:]]
                     done += 1
                     if done == len(todo):
@@ -119,7 +120,7 @@ def macro_case(b, variant):
     base = 0
     names = [key_name(k + 1, (base + b["h"][k]) % 16) for k in range(nk)]
     ops = [tuple(o) for o in b["hist"]] + [tuple(b["op"])]
-    ncmd = 0 if variant == "file" else (len(ops) + 1) // 2
+    ncmd = 0 if variant == "file" else len(ops) if variant == "allcmd" else (len(ops) + 1) // 2
     opts, txt = [], []
     for j, o in enumerate(ops):
         n = names[o[1] - 1]
@@ -153,7 +154,7 @@ def replay_macros(ctx, tree, behaviours, trace_to=None):
         os.unlink(f)
         return i, b, variant, opts, txt, exp, p.returncode, got, p.stderr[-300:]
 
-    work = [(i, b, v) for i, b in enumerate(behaviours) for v in ("file", "cmdline")]
+    work = [(i, b, v) for i, b in enumerate(behaviours) for v in ("file", "cmdline", "allcmd")]
     for i, b, variant, opts, txt, exp, rc, got, err in vt.pmap(one, work):
         ops = b["hist"] + [b["op"]]
         ctx.note_case("macro:%s:%s:%s" % (variant, b["h"], ops), nontrivial=len(ops) >= 2)
@@ -253,11 +254,23 @@ def run(ctx):
              for b in beh if b["fail"] == "none" for n in b["nx"]]
     pairs = vt.subsample(pairs, ctx.seed, 4 if q else 1)
     replay_inproc(ctx, exe4, pairs, "cap4x")
+    # as many keys as (and more than) initial slots: histories that leave no never-used slot
+    # (put/delete of every key) - the table must purge tombstones instead of probing forever
+    outf = os.path.join(ctx.scratch, "full.ndjson")
+    for nk, hmod in ((4, 2),) if q else ((4, 4), (5, 2)):
+        cfgf = ctx.cfg("hash", "HashMap_gen.cfg", NK=nk, HMod=hmod, Look=False, MaxCap=32)
+        gf = ctx.tlc("hash", "HashMap", cfgf, env=dict(OUT=outf), workers=8, heap="8g")
+        if not gf.ok:
+            p = ctx.replay_dir("tlc-HashMap-full")
+            open(p + "/counterexample.txt", "w").write(gf.trace_text())
+            ctx.report("tlc:HashMap:full:%s" % gf.violated, "hash table design does not refine the dictionary", p)
+    full = vt.subsample(vt.read_ndjson(outf), ctx.seed, 3 if q else 1)
+    replay_inproc(ctx, exe4, full, "cap4full")
     ctx.phase("cap4 done")
     # 2b. long histories over 16 keys at the real INIT_SIZE, across 16->32(->64) growth
     out2 = os.path.join(ctx.scratch, "sim.ndjson")
-    cfg = ctx.cfg("hash", "HashMap_sim.cfg", NK=16, NV=2, InitCap=16, HMod=16, MaxCap=64)
-    s = ctx.tlc("hash", "HashMap", cfg, env=dict(OUT=out2), workers=4, simulate=40 if q else 400, depth=60,
+    cfg = ctx.cfg("hash", "HashMap_sim.cfg", NK=28, NV=2, InitCap=16, HMod=16, MaxCap=128)
+    s = ctx.tlc("hash", "HashMap", cfg, env=dict(OUT=out2), workers=4, simulate=30 if q else 400, depth=120,
                 extra=["-seed", str(ctx.seed + 1)], count=False)
     if not s.ok:
         ctx.report("tlc:HashMap:simulate:%s" % s.violated, "simulation of long histories violated " + str(s.violated),
@@ -268,7 +281,7 @@ def run(ctx):
     ctx.phase("cap16 done")
     # 2c. macro level: #define/#undef/-D/-U histories with colliding names through -E
     trd = ctx.tmp("mtrace")
-    mb = vt.subsample(beh, ctx.seed, 80 if q else 4)
+    mb = vt.subsample(beh, ctx.seed, 80 if q else 4) + vt.subsample(pairs, ctx.seed + 1, 800 if q else 40)
     replay_macros(ctx, tree, mb, trace_to=(trd, 200 if q else 100))
     ctx.sample(dict(kind="macro history", options=macro_case(mb[-1], "cmdline")[0], file=macro_case(mb[-1], "cmdline")[1][:200]))
     ctx.phase("macro done")
@@ -286,7 +299,7 @@ def run(ctx):
     return ctx.finish(
         rule="behaviour = one transition of HashMap.tla's complete state graph (shortest history + one more operation) or one prefix of a simulated long history, replayed on the real hashmap.c / through chibicc -E; non-trivial = at least 2 operations; distinct = distinct (collision pattern, operation sequence, replay mode)",
         exhaustive=True,
-        extra=dict(graph_transitions_replayed=len(beh), extended_transitions_replayed=len(pairs), long_history_prefixes=len(sim), macro_histories=2 * len(mb)))
+        extra=dict(graph_transitions_replayed=len(beh), extended_transitions_replayed=len(pairs), long_history_prefixes=len(sim), macro_histories=3 * len(mb), full_table_transitions=len(full)))
 
 
 def replay(ctx, path):
